@@ -62,7 +62,7 @@ Lemma read_store_header_other Os o h v σ x :
   hdr_of x <> Some (o, h) -> read (store_header Os o h v σ) x = read σ x.
 Proof.
   intros Hx. unfold store_header.
-  destruct v as [? ?|? ?|? ns ?|? ?|? ?]; try (apply (read_set_hdrs_other o h); auto; intros; apply hget_hset_other; auto).
+  destruct v as [? ?|? ?|? ns ?|? ?|? ?|? ?]; try (apply (read_set_hdrs_other o h); auto; intros; apply hget_hset_other; auto).
   destruct ns; apply (read_set_hdrs_other o h); auto; intros; [apply hget_hdel_other | apply hget_hset_other]; auto.
 Qed.
 
@@ -256,6 +256,76 @@ Proof.
   destruct T; try discriminate; unfold independent in HxT; simpl in HxT; inversion H; subst.
   - apply (read_set_hdrs_other o0 h); auto. intros; apply hget_hdel_other; auto.
   - apply read_unset_field_other; auto.
+Qed.
+
+(* unset <obj>.http.<pre>*;  EXACTLY the headers of that object whose name starts with pre (ASCII case
+   folded) change - they become not set, with all their sub-fields - and nothing else does *)
+Lemma hget_hdel_wild o pre k hs :
+  hget k (hdel_wild o pre hs) = if wild_hit o pre k then None else hget k hs.
+Proof.
+  unfold hdel_wild. induction hs as [|[k2 v] r IH]; cbn [filter hget fst].
+  - destruct (wild_hit o pre k); reflexivity.
+  - destruct (key_eqb k k2) eqn:E.
+    + apply key_eqb_eq in E. subst k2.
+      destruct (wild_hit o pre k) eqn:Hh; cbn [negb hget].
+      * exact IH.
+      * rewrite key_eqb_refl. reflexivity.
+    + destruct (wild_hit o pre k2); cbn [negb hget]; [|rewrite E]; exact IH.
+Qed.
+
+Theorem unset_wildcard_frame n fn o pre σ out σ' :
+  exec repaired Os P n fn (SUnsetWild o pre) σ = OK (out, σ') ->
+  out = ONorm /\
+  (* untouched: every name that is not a header / sub-field under the prefix *)
+  (forall x, match hdr_of x with Some k => wild_hit o pre k = false | None => True end -> read σ' x = read σ x) /\
+  (* the headers under the prefix: not set, and so is each of their sub-fields *)
+  (forall h, wild_hit o pre (o, h) = true ->
+     read σ' (NHeader o h) = Some (VStr [] true false) /\
+     forall k, read σ' (NField o h k) = Some (field_of_text [] k)).
+Proof.
+  intros H. destruct n as [|n]; [discriminate|]. simpl in H. inversion H; subst. split; [reflexivity|]. split.
+  - intros x Hx. destruct x; simpl in *; auto.
+    + unfold header_val. simpl. rewrite hget_hdel_wild, Hx. reflexivity.
+    + unfold field_val, hdr_text. simpl. rewrite hget_hdel_wild, Hx. reflexivity.
+  - intros h Hh. split; [|intros k]; simpl.
+    + unfold header_val. simpl. rewrite hget_hdel_wild, Hh. reflexivity.
+    + unfold field_val, hdr_text. simpl. rewrite hget_hdel_wild, Hh. reflexivity.
+Qed.
+
+(* the match is on the NAME, case-insensitively: "H" and "h" select the same headers *)
+Lemma prefix_ci_fold p q s : map fold_byte p = map fold_byte q -> prefix_ci p s = prefix_ci q s.
+Proof.
+  revert q s. induction p as [|x p IH]; intros [|y q] s Hm; try discriminate; auto.
+  simpl in Hm. inversion Hm as [[Hx Hp]]. destruct s as [|z s]; simpl; auto.
+  rewrite Hx. destruct (byte_eqb (fold_byte y) (fold_byte z)); auto.
+Qed.
+
+Theorem unset_wildcard_case_insensitive n fn o p q σ :
+  map fold_byte p = map fold_byte q ->
+  exec repaired Os P n fn (SUnsetWild o p) σ = exec repaired Os P n fn (SUnsetWild o q) σ.
+Proof.
+  intros Hm. destruct n as [|n]; [reflexivity|]. simpl.
+  assert (E : hdel_wild o p (hdrs σ) = hdel_wild o q (hdrs σ)).
+  { unfold hdel_wild. apply filter_ext. intros e. unfold wild_hit. rewrite (prefix_ci_fold p q); auto. }
+  rewrite E. reflexivity.
+Qed.
+
+(* synthetic e;  only the response-body cell gb changes (re.group.N aside when e matches) *)
+Theorem synthetic_frame n fn gb e σ out σ' :
+  wf σ -> pure e = true ->
+  exec repaired Os P n fn (SSynthetic gb e) σ = OK (out, σ') ->
+  out = ONorm /\ forall x, x <> NGlobal gb -> is_group x = false -> read σ' x = read σ x.
+Proof.
+  intros W Hp H. destruct n as [|n]; [discriminate|]. simpl in H.
+  bind_inv H as [r σ1] H1.
+  destruct (lookup gb (globals σ1)) as [l|] eqn:El; [|discriminate].
+  bind_inv H as σ2 H2. inversion H; subst. split; [reflexivity|].
+  intros x Hxg Hxr. rewrite <- (eval_frame _ _ _ _ _ _ W Hp H1 x Hxr).
+  destruct (all_good Os P n) as (Ge & _ & _).
+  destruct (Ge dflt_mode _ _ _ _ W H1) as (E1 & _ & W1 & _).
+  unfold assign_cell in H2. bind_inv H2 as a1 Ha1. bind_inv H2 as a2 Ha2. bind_inv H2 as a3 Ha3.
+  inversion H2; subst.
+  apply (read_write_other σ1 (NGlobal gb)); auto.
 Qed.
 
 (* ---------------------------------------------------------------------------------------
